@@ -393,6 +393,7 @@ func isEffectFree(name string) bool {
 	for _, p := range []string{
 		"(*google.golang.org/grpc/internal/grpclog.PrefixLogger).", "(*google.golang.org/grpc/grpclog.", "google.golang.org/grpc/grpclog.", "(google.golang.org/grpc/grpclog.",
 		"fmt.Sprintf", "fmt.Sprint", "google.golang.org/grpc/internal/channelz.", "(*google.golang.org/grpc/internal/grpclog.",
+		"strings.Join", "strings.Split", "strings.TrimSpace", "strings.EqualFold", "strings.Contains", "github.com/cespare/xxhash/v2.Sum64String", "github.com/cespare/xxhash/v2.Sum64",
 		"google.golang.org/grpc/balancer/base.NewErrPicker",
 		"math.", // package math: pure functions (result unconstrained unless modelled elsewhere)
 		// metric handles: Record forwards to the MetricsRecorder plugin (telemetry only)
@@ -424,6 +425,9 @@ func (x *Exec) externInvoke(f *frame, in ssa.Instruction, c *ssa.CallCommon, arg
 	case strings.Contains(name, "grpclog.") && (strings.HasSuffix(name, ".V") || strings.Contains(name, ".Info") || strings.Contains(name, ".Warning") || strings.Contains(name, ".Error")):
 		x.assumed["extern "+name+": no effect on modelled state (logging)"] = true
 		return x.resultVal(f.st, c.Signature(), "log"), true
+	case name == "(context.Context).Value" || name == "(context.Context).Err" || name == "(context.Context).Done" || name == "(context.Context).Deadline":
+		x.assumed["extern "+name+": reads the context (no effect on modelled state; result unconstrained)"] = true
+		return x.resultVal(f.st, c.Signature(), "ctx"), true
 	case name == "(error).Error":
 		x.assumed["extern (error).Error: no effect on modelled state"] = true
 		return x.resultVal(f.st, c.Signature(), "errstr"), true
